@@ -690,6 +690,21 @@ func (p *Process) ceaseFlowMonitor(tracer tracing.ITracer) func(ctx context.Cont
 		Process instance
 		*/
 		startEventsActivated := make([]*schema.StartEvent, 0)
+		// a start event counts once, and only if it is one of the process's
+		// own: an embedded sub-process relays the traces of its start events
+		activated := func(flowNode *schema.StartEvent) {
+			for _, seen := range startEventsActivated {
+				if seen == flowNode {
+					return
+				}
+			}
+			for i := range *p.element.StartEvents() {
+				if &(*p.element.StartEvents())[i] == flowNode {
+					startEventsActivated = append(startEventsActivated, flowNode)
+					return
+				}
+			}
+		}
 
 		// So, at first, we wait for (1.1) to occur
 		// [(1.2) will be addded when we actually support them]
@@ -706,12 +721,12 @@ func (p *Process) ceaseFlowMonitor(tracer tracing.ITracer) func(ctx context.Cont
 				case TerminationTrace:
 					switch flowNode := t.Source.(type) {
 					case *schema.StartEvent:
-						startEventsActivated = append(startEventsActivated, flowNode)
+						activated(flowNode)
 					}
 				case FlowTrace:
 					switch flowNode := t.Source.(type) {
 					case *schema.StartEvent:
-						startEventsActivated = append(startEventsActivated, flowNode)
+						activated(flowNode)
 					}
 				}
 			case <-ctx.Done():
